@@ -18,10 +18,10 @@ FUNCTIONS = ['tools:make_htlc_sha256_lock', 'tools:make_htlc_shake256_lock', 'to
              'functions:OP_SHA256', 'functions:OP_SHAKE256', 'functions:OP_EQUAL', 'functions:OP_IF_ELSE', 'functions:OP_CHECK_TIMESTAMP_VERIFY',
              'functions:OP_CHECK_SIG', 'functions:OP_EQUAL_VERIFY', 'functions:OP_DUP', 'functions:run_auth_scripts', 'parsing:compile_script']
 BOUNDS = {'quick': {'preimages': 'symbolic, length 1, 2, 16 (arbitrary state) / 16 (builders)', 'timeouts_and_times': 'now at build time, now at run time, timeout, '
-                    't: symbolic integers, deadline < 2^40', 'digest_sizes': 'sha256; shake256 with 20 bytes', 'flags': 'allowed 00 and 03',
+                    't: symbolic integers, deadline < 2^40', 'digest_sizes': 'sha256; shake256 with 20 bytes, and 1, 15, 16, 32 bytes for one configuration per lock kind and path', 'flags': 'allowed 00 and 03',
                     'tweaked_ptlc': 'lock side only (the lock pushes receiver + tweak point computed by aggregate_points in the algebra model); the '
                                     'sign_with_scalar(x + t) signature identity is checked under C17'},
-          'thorough': {'preimages': 'lengths 1, 2, 16, 32, 64', 'timeouts_and_times': 'as quick', 'digest_sizes': 'shake256 with 16, 20, 32 bytes',
+          'thorough': {'preimages': 'lengths 1, 2, 16, 32, 64', 'timeouts_and_times': 'as quick', 'digest_sizes': 'shake256 with 1, 2, 8, 15, 16, 17, 20, 32, 64 bytes',
                        'flags': '00, 01, 03, ff', 'tweaked_ptlc': 'as quick'}}
 OUTSIDE = ['SHA-256 / SHAKE-256 / Ed25519 themselves', 'preimage lengths outside the list (the hash is an uninterpreted function of length and value)']
 ASSUMPTIONS = ['hash stubs with collision freedom (a "wrong preimage" is one whose digest differs)', 'signature oracle for the untweaked paths; group-algebra '
@@ -62,7 +62,7 @@ def _slack(t, now, thr):
 
 
 # ------------------------------------------------------------------------------ HTLC exactness
-def h_htlc_exact(c, pkg, kind, plen, siglen, allowed, keylen=32):
+def h_htlc_exact(c, pkg, kind, plen, siglen, allowed, keylen=32, hs=20):
     stubs.CONFIG.collision_free = True
     stubs.CONFIG.log2_max_bits = 48
     fields, sf = _sigfields(c, 0b011)
@@ -73,10 +73,10 @@ def h_htlc_exact(c, pkg, kind, plen, siglen, allowed, keylen=32):
     timeout = c.int('timeout', 0, 2 ** 38)
     recv, refund = c.bytes('receiver', 32), c.bytes('refund', 32)
     c.assume(sym_not(bytes_eq(recv, refund)))
-    dlen = 32 if 'sha256' in kind else 20
+    dlen = 32 if 'sha256' in kind else hs
     digest = c.bytes('digest', dlen)
     stubs.CONFIG.clock = lambda: nb
-    lock = _build_htlc(pkg, kind, recv, refund, digest, timeout, '%02x' % allowed)
+    lock = _build_htlc(pkg, kind, recv, refund, digest, timeout, '%02x' % allowed, hs)
     stubs.CONFIG.clock = lambda: nr
     sig = c.bytes('sig', siglen)
     p = c.bytes('p', plen)
@@ -85,7 +85,7 @@ def h_htlc_exact(c, pkg, kind, plen, siglen, allowed, keylen=32):
     items = [sig, key, p] if two else [sig, p]
     ok, r, stack = _run_lock_from_state(pkg, lock.bytes, items, sf)
     thr = pkg.functions.flags['ts_threshold']
-    hit = bytes_eq(_hash_of(kind, p), digest)
+    hit = bytes_eq(_hash_of(kind, p, hs), digest)
     deadline = zi(nb) + zi(timeout)
     time_ok = mk_bool(z3.And(zi(t) >= deadline, _slack(t, nr, thr)))
     if siglen not in (64, 65) or (two and keylen != 32):
@@ -97,8 +97,12 @@ def h_htlc_exact(c, pkg, kind, plen, siglen, allowed, keylen=32):
     perm = _subset(flag, allowed)
     if two:
         # the supplied key must hash (20 bytes) to the committed key of the path
-        k_recv = bytes_eq(key, recv)
-        k_ref = bytes_eq(key, refund)
+        # (compared through the commitments, which is what the lock can check; for digests of >= 16 bytes the hash stub's collision
+        # freedom makes this the same as equality of the keys)
+        alg = 'sha256' if 'sha256' in kind else 'shake_256'
+        hk = stubs.hash_model(alg, key, dlen)
+        k_recv = bytes_eq(hk, stubs.hash_model(alg, recv, dlen))
+        k_ref = bytes_eq(hk, stubs.hash_model(alg, refund, dlen))
         v = mk_bool(stubs.valid_term(key, msg, sig[:64]))
         want = sym_and(perm, v, sym_or(sym_and(hit, k_recv), sym_and(sym_not(hit), time_ok, k_ref)))
     else:
@@ -148,7 +152,7 @@ def h_ptlc_exact(c, pkg, siglen, allowed, sellen=1):
 
 
 # ------------------------------------------------------------------------------ builders end to end
-def h_builders(c, pkg, kind, path, allowed, flag):
+def h_builders(c, pkg, kind, path, allowed, flag, hs=20):
     """lock from the preimage; claim witness by the receiver / refund witness by the refund key"""
     stubs.CONFIG.collision_free = True
     stubs.CONFIG.log2_max_bits = 48
@@ -173,14 +177,17 @@ def h_builders(c, pkg, kind, path, allowed, flag):
         elif kind == 'htlc_sha256':
             lock = T.make_htlc_sha256_lock(recv, refund, pre, None, timeout, al)
         elif kind == 'htlc_shake256':
-            lock = T.make_htlc_shake256_lock(recv, refund, pre, None, 20, timeout, al)
+            lock = T.make_htlc_shake256_lock(recv, refund, pre, None, hs, timeout, al)
         elif kind == 'htlc2_sha256':
             lock = T.make_htlc2_sha256_lock(recv, refund, pre, None, timeout, al)
         else:
-            lock = T.make_htlc2_shake256_lock(recv, refund, pre, None, 20, timeout, al)
+            lock = T.make_htlc2_shake256_lock(recv, refund, pre, None, hs, timeout, al)
         stubs.CONFIG.clock = lambda: nr
         seed = rs if path == 'claim' else fs
         other = c.bytes('wrong_preimage', 1)
+        if kind != 'ptlc' and path == 'refund':
+            # "wrong preimage" = one whose digest differs from the committed one (automatic for digests >= 16 bytes, stated for short ones)
+            c.assume(sym_not(bytes_eq(_hash_of(kind, other, hs), _hash_of(kind, pre, hs))))
         if kind == 'ptlc':
             wit = T.make_ptlc_witness(seed, sf, None, fl) if path == 'claim' else T.make_ptlc_refund_witness(seed, sf, fl)
         elif kind.startswith('htlc2'):
@@ -222,11 +229,11 @@ def _real_builders(inputs, params):
         elif kind == 'htlc_sha256':
             lock = RT.make_htlc_sha256_lock(recv, refund, pre, None, timeout, al)
         elif kind == 'htlc_shake256':
-            lock = RT.make_htlc_shake256_lock(recv, refund, pre, None, 20, timeout, al)
+            lock = RT.make_htlc_shake256_lock(recv, refund, pre, None, params.get('hs', 20), timeout, al)
         elif kind == 'htlc2_sha256':
             lock = RT.make_htlc2_sha256_lock(recv, refund, pre, None, timeout, al)
         else:
-            lock = RT.make_htlc2_shake256_lock(recv, refund, pre, None, 20, timeout, al)
+            lock = RT.make_htlc2_shake256_lock(recv, refund, pre, None, params.get('hs', 20), timeout, al)
     with pinned_clock(inputs.get('now_run', 0)):
         seed = rs if path == 'claim' else fs
         other = inputs.get('wrong_preimage', b'\x00')
@@ -273,7 +280,7 @@ def r_exact(inputs, params, obligation):
     rk, fk, ok_ = SigningKey(b'\x01' * 32), SigningKey(b'\x02' * 32), SigningKey(b'\x03' * 32)
     recv, refund = bytes(rk.verify_key), bytes(fk.verify_key)
     pre = b'p' * 16
-    hs = 20
+    hs = params.get('hs', 20)
 
     def H(x):
         return hashlib.sha256(x).digest() if 'sha256' in kind else hashlib.shake_256(x).digest(hs)
@@ -379,6 +386,10 @@ def _p_htlc(tier):
         out.append({'kind': kind, 'plen': 2, 'siglen': 63, 'allowed': 0})
         if kind.startswith('htlc2'):
             out.append({'kind': kind, 'plen': 2, 'siglen': 64, 'allowed': 0, 'keylen': 31})
+        if 'shake' in kind:
+            # digest sizes other than the default 20
+            for hs in ((1, 15, 16, 32) if tier == 'quick' else (1, 2, 8, 15, 16, 17, 32, 64)):
+                out.append({'kind': kind, 'plen': 2, 'siglen': 64, 'allowed': 0, 'hs': hs})
     return out
 
 
@@ -392,6 +403,9 @@ def _p_builders(tier):
         for path in ('claim', 'refund'):
             for fl, al in ((0, 0), (1, 3), (4, 3)):
                 out.append({'kind': kind, 'path': path, 'allowed': al, 'flag': fl})
+            if 'shake' in kind:
+                for hs in ((1, 15, 16, 32) if tier == 'quick' else (1, 2, 8, 15, 16, 17, 32, 64)):
+                    out.append({'kind': kind, 'path': path, 'allowed': 0, 'flag': 0, 'hs': hs})
     return out
 
 
